@@ -211,9 +211,15 @@ def judge (prop : String) (j : Json) : R Verdict := do
         -- an optional output whose lovelace wrapped around is kept although it denotes nothing
         let wrappedOptional := tx.outputs.any fun o =>
           o.optional && (match o.amount with | .node .assets cs => (entriesNegative cs).1 | _ => false)
+        -- …or whose negative asset entry was dropped one by one, leaving a positive one (same finding as below)
+        let droppedOptional := tx.outputs.any fun o =>
+          o.optional && (match o.amount with | .node .assets cs => (entriesNegative cs).2 | _ => false)
         if wrappedOptional && keptUnderWrap.length + nPub == atx.outputs.length then
           spec := spec ++ ["exact:output-lovelace:wrapped"]
           tags := tags ++ ["lovelace-entry-out-of-range"]
+        else if droppedOptional && keptUnderWrap.length + nPub == atx.outputs.length then
+          spec := spec ++ ["exact:output-assets:negative-dropped"]
+          tags := tags ++ ["negative-asset-entry"]
         else spec := spec ++ ["exact:output-count"]
       else
         for (o, a) in expectedOutputs.zip atx.outputs do
